@@ -14,7 +14,7 @@ CONSTANTS Mode, NInputs, Features, CtorIxs, FieldCounts, MaxCase
 Tx1 == [i \in 1..32 |-> 1]
 Tx2 == [i \in 1..32 |-> IF i = 32 THEN 2 ELSE 1]
 Tx3 == [i \in 1..32 |-> IF i = 1 THEN 0 ELSE 255]
-RefPool == {[txid |-> t, index |-> ix] : t \in {Tx1, Tx2, Tx3}, ix \in {0, 1, 10}}
+RefPool == {[txid |-> t, index |-> ix] : t \in {Tx1, Tx2, Tx3}, ix \in {2, 10, 256}}   \* numeric order 2 < 10 < 256; as decimal text "10" < "2" < "256"; by low byte 256 < 2 < 10
 InputNames == <<"zeta", "alpha", "mid", "beta">>          \* source order is not name order
 \* (a few of the items carry the field-less alternative 1 or the unit value instead of a case with a field)
 RedOf(i) == IF i \in {2, 12} THEN CtorE("Var", "B", <<>>, Absent) ELSE IF i = 21 THEN [k |-> "unit"]
@@ -85,8 +85,8 @@ C08Cases ==
     \* redeemer counts every reward account of the body, guarded or not
     \cup {[kind |-> "c08", refs |-> rs, many |-> FALSE, reds |-> "some", mints |-> ms, burnFirst |-> FALSE, wds |-> 2, multi |-> "none",
             wdReds |-> wr] :
-           rs \in {s \in [1..NInputs -> RefPool] : s[1] = [txid |-> Tx1, index |-> 0] /\ (NInputs >= 2 => s[2] = [txid |-> Tx2, index |-> 1])
-                                                   /\ (NInputs >= 3 => s[3] = [txid |-> Tx3, index |-> 10])},
+           rs \in {s \in [1..NInputs -> RefPool] : s[1] = [txid |-> Tx1, index |-> 2] /\ (NInputs >= 2 => s[2] = [txid |-> Tx2, index |-> 10])
+                                                   /\ (NInputs >= 3 => s[3] = [txid |-> Tx3, index |-> 256])},
            ms \in {0, 1}, wr \in {"first", "second", "none"}}
 WdGuard(x) == IF "wdReds" \in DOMAIN x THEN x.wdReds ELSE "all"
 C08Prog(x) ==
